@@ -897,12 +897,12 @@ def g_batch(mode):
     for st in ("thread",):
         with Running(st) as r:
             for sername in ("serpent", "json", "msgpack"):
-                for oneway in (False, True):
+                for oneway, bound in ((False, False), (True, False), (False, True), (True, True)):
                     for calls_ in seqs:
                         RUNS[0] += 1
                         objs = [Acc(), Acc()]
                         uris = [r.daemon.register(o) for o in objs]
-                        desc = {"group": "C11", "serializer": sername, "oneway": oneway, "calls": calls_}
+                        desc = {"group": "C11", "serializer": sername, "oneway": oneway, "calls": calls_, "proxy_already_connected": bound}
                         try:
                             # sequential reference
                             ref_results, ref_exc = [], None
@@ -917,6 +917,8 @@ def g_batch(mode):
                             got_results, got_exc = [], None
                             with client.Proxy(uris[1]) as p:
                                 p._pyroSerializer = sername
+                                if bound:
+                                    p._pyroBind()       # the proxy has been used before: it knows the object's metadata
                                 b = client.BatchProxy(p)
                                 for cl in calls_:
                                     getattr(b, cl[0])(*cl[1:])
